@@ -2,7 +2,7 @@ CONSTANT P = 17
 CONSTANT NS = 2
 CONSTANT InitOn = "last"
 CONSTANT Disabled = "none"
-CONSTANT MaxLen = 3
+CONSTANT MaxLen = 2
 CONSTANT OutVals = {0, 1}
 CONSTANT Vals = {0, 1, 2}
 CONSTANT LuRows = {1, 2}
